@@ -27,6 +27,8 @@ let cmd_equiv a b =
   | Stdlib.Error m, _ -> "{\"r\":\"err\",\"side\":1,\"msg\":" ^ jstr m ^ "}"
   | _, Stdlib.Error m -> "{\"r\":\"err\",\"side\":2,\"msg\":" ^ jstr m ^ "}"
   | Stdlib.Ok (g1, e1), Stdlib.Ok (g2, e2) -> (
+      if silent_cycle g1 then "{\"r\":\"cycle\",\"side\":1}" else
+      if silent_cycle g2 then "{\"r\":\"cycle\",\"side\":2}" else
       match pair_entries e1 e2 with
       | None ->
           "{\"r\":\"entries\",\"e1\":" ^ jlist (jopt jnat) e1 ^ ",\"e2\":" ^ jlist (jopt jnat) e2 ^ "}"
